@@ -305,6 +305,15 @@ class Confinement:
                     return self.ev(e.args[0], env, fi) if e.args else TOP
                 if n == "set":
                     return TOP if not e.args else self.ev(e.args[0], env, fi)
+                if n == "dict" and not e.args and not e.keywords:
+                    return TOP
+                b_ = fi.resolve(n)
+                if b_ is not None and b_.kind == "ext" and str(b_.target) == "itertools.chain":
+                    # chain(X, Y, ...): every element comes from one of the arguments
+                    c = TOP
+                    for a in e.args:
+                        c = meet(c, self.ev(a, env, fi))
+                    return c
                 if self.is_helper(n):
                     hs = self.helper_summary(n)
                     h = self.helper_fi(n)
@@ -352,9 +361,14 @@ class Confinement:
                     for a in e.args:
                         c = meet(c, self.ev(a, env, fi))
                     return c
-                if fn.attr == "copy":
-                    return self.ev(fn.value, env, fi)
+                if fn.attr in ("copy", "values"):
+                    return self.ev(fn.value, env, fi)  # d.values(): what was stored in the local dictionary
                 return FS()
+        if isinstance(e, ast.Dict):
+            c = TOP
+            for x in e.values:
+                c = meet(c, self.ev(x, env, fi))
+            return c
         return FS()
 
     def selfconf(self, e, env: Env, fi):
@@ -589,6 +603,13 @@ class Confinement:
                     env.prov.pop(t.id, None)
                 src = self._contribs(s.value, env)
                 env.contrib[t.id] = list(src) if src else ([(s, c, txt(s.value)[:60])] if c != TOP else [])
+            elif isinstance(t, ast.Subscript) and isinstance(t.value, ast.Name) and t.value.id not in fi.params:
+                # d[key] = value  on a local container: one more contribution
+                v = t.value.id
+                env = env.copy()
+                add = self.ev(s.value, env, fi)
+                env.conf[v] = meet(env.conf.get(v, TOP), add)
+                env.contrib.setdefault(v, []).append((s, add, txt(s)[:70]))
             elif isinstance(t, (ast.Tuple, ast.List)):
                 env = env.copy()
                 vals = s.value.elts if isinstance(s.value, (ast.Tuple, ast.List)) and len(s.value.elts) == len(t.elts) else None
@@ -605,10 +626,11 @@ class Confinement:
         if isinstance(s, ast.Expr):
             c = s.value
             if isinstance(c, ast.Call) and isinstance(c.func, ast.Attribute) and isinstance(c.func.value, ast.Name) \
-                    and c.func.attr in ("add", "append", "update", "extend") and c.args:
+                    and (c.func.attr in ("add", "append", "update", "extend") and c.args
+                         or c.func.attr == "setdefault" and len(c.args) == 2):
                 v = c.func.value.id
                 env = env.copy()
-                add = self.ev(c.args[0], env, fi)
+                add = self.ev(c.args[-1] if c.func.attr == "setdefault" else c.args[0], env, fi)  # d.setdefault(key, value): the value
                 if c.func.attr in ("update", "extend") and isinstance(c.args[0], (ast.GeneratorExp, ast.ListComp, ast.SetComp)):
                     add = self.comp_conf(c.args[0], env, fi)
                 env.conf[v] = meet(env.conf.get(v, TOP), add)
@@ -683,8 +705,9 @@ class Confinement:
 
     def _contribs(self, e, env: Env):
         """contribution list of the container an expression is derived from"""
-        while isinstance(e, ast.Call) and isinstance(e.func, ast.Name) and e.func.id in ("list", "tuple", "sorted", "iter", "next") and e.args:
-            e = e.args[0]
+        while isinstance(e, ast.Call) and ((isinstance(e.func, ast.Name) and e.func.id in ("list", "tuple", "sorted", "iter", "next") and e.args)
+                                           or (isinstance(e.func, ast.Attribute) and e.func.attr == "values" and not e.args)):
+            e = e.args[0] if e.args else e.func.value
         while isinstance(e, ast.Subscript):
             e = e.value
         if isinstance(e, ast.Call) and isinstance(e.func, ast.Name) and e.func.id in HULL:
